@@ -277,7 +277,9 @@ func c17Exec(c *c17Case) map[string]interface{} {
 		// the URL is compared unescaped (scheme://host + decoded path)
 		u := r.URL
 		if pu, err := url.Parse(u); err == nil {
-			u = pu.Scheme + "://" + pu.Host + pu.Path // decoded path: "{key}" left in the template travels escaped
+			// the path as it travels, except that the braces of a placeholder left in the template are shown unescaped; a value
+			// such as "a/b" must arrive as two segments (a percent-escaped "a%2Fb" is a different URL)
+			u = pu.Scheme + "://" + pu.Host + strings.NewReplacer("%7B", "{", "%7D", "}", "%7b", "{", "%7d", "}").Replace(pu.EscapedPath())
 		}
 		ct := r.Header["Content-Type"]
 		if ct == nil {
